@@ -759,6 +759,32 @@ func (fr *Frame) unrolledCut(n *unode, l *Loop, s *State, g *Term, phis []*ssa.P
 	}
 }
 
+// rangedSlice: the slice value a `for ... range slice` loop iterates over (the operand of the len() call that bounds
+// the hidden index), nil for other loops.
+func rangedSlice(hdr *ssa.BasicBlock) ssa.Value {
+	for _, ins := range hdr.Instrs {
+		b, ok := ins.(*ssa.BinOp)
+		if !ok || b.Op != token.LSS {
+			continue
+		}
+		inc, ok := b.X.(*ssa.BinOp)
+		if !ok || inc.Op != token.ADD {
+			continue
+		}
+		if phi, ok := inc.X.(*ssa.Phi); !ok || phi.Comment != "rangeindex" {
+			continue
+		}
+		if call, ok := b.Y.(*ssa.Call); ok {
+			if bi, ok := call.Call.Value.(*ssa.Builtin); ok && bi.Name() == "len" && len(call.Call.Args) == 1 {
+				if _, ok := call.Call.Args[0].Type().Underlying().(*types.Slice); ok {
+					return call.Call.Args[0]
+				}
+			}
+		}
+	}
+	return nil
+}
+
 // autoInvariants: invariants the engine supplies (and checks like any other)
 // for compiler-generated loop variables that no contract can name: the hidden
 // index of `for ... range slice` stays in [-1, len).
